@@ -13,7 +13,7 @@ PKGS = {
             "wire.go": HDR % "ok3" + "func InitZ() Z {\n\tpanic(wire.Build(NewZ))\n}\n"},
     "bad": {"p.go": "package bad\n\ntype A struct{ N int }\ntype B struct{ A A }\n\nfunc NewB(a A) B { return B{A: a} }\n",
             "wire.go": HDR % "bad" + "func InitB() B {\n\tpanic(wire.Build(NewB))\n}\n"},
-    "noinj": {"p.go": "package noinj\n\ntype A struct{ N int }\n\nfunc NewA() A { return A{N: 1} }\n"},
+    "noinj": {"p.go": "package noinj\n\nimport _ \"embed\"\n\ntype A struct{ N int }\n\nfunc NewA() A { return A{N: 1} }\n"},
     # only test files: nothing is compiled into the package, it has no injectors and no error
     "tonly": {"x_test.go": "package tonly\n\nimport \"testing\"\n\nfunc TestX(t *testing.T) {}\n"},
     "needs": {"p.go": "package needs\n\ntype A struct{ N int }\n\nfunc NewA() (A, error) { return A{N: 1}, nil }\n",
@@ -135,7 +135,7 @@ def eng_cli(pid, tier, wd, known, replay=None):
     names = ["ok1", "ok2", "bad", "noinj", "needs", "tonly", "ok3"]
     # what the sources say, independently of the tool: does the package analyse cleanly?
     clean = {"ok1": True, "ok2": True, "bad": False, "noinj": True, "needs": False, "tonly": True, "ok3": True}
-    optsets = [(), ("-output_file_prefix=zz_",), ("-header_file=HDR",), ("-tags=foo",)]
+    optsets = [(), ("-output_file_prefix=zz_",), ("-header_file=HDR",), ("-tags=foo",), ("-tags=foo bar",)]
     ref = {}
     for o in optsets:
         for n in names:
@@ -262,6 +262,29 @@ def eng_cli(pid, tier, wd, known, replay=None):
         d, why = check_case(cmd, pk, o, pr)
         if why:
             viol.append(({"property": pid, "kind": "failing-input", "broken": "C17 oracle on the wire binary", "input": {"invocation": d}, "oracle": why, "seed": seed()}, True))
+    # a header file that is not a Go comment: formatting fails for every package (exit 1); whatever is written into a
+    # package's directory must at least be that package's text
+    root = scratch("cli")
+    try:
+        write_ws(root, {n: PKGS[n] for n in ("ok1", "ok3", "ok2")})
+        open(os.path.join(root, "hdr.txt"), "w").write("Copyright nobody\n")
+        rc, out, err = wire(root, ["gen", "-header_file=" + os.path.join(root, "hdr.txt"), "./ok1", "./ok3", "./ok2"])
+        stats["invocations"] += 1
+        why = []
+        if rc == 0:
+            why.append("gen exits 0 although the output of no package could be formatted")
+        for n in ("ok1", "ok3", "ok2"):
+            p = os.path.join(root, n, "wire_gen.go")
+            if os.path.exists(p):
+                t = open(p).read()
+                others = [m for m in ("ok1", "ok2", "ok3") if m != n and ("package " + m) in t]
+                if others or ("package " + n) not in t:
+                    why.append("%s/wire_gen.go holds the text of package %s" % (n, ", ".join(others) or "?"))
+        if why:
+            viol.append(({"property": pid, "kind": "failing-input", "broken": "C17 oracle on the wire binary: header that is not Go", "input": {"invocation": {"cmd": "gen", "pkgs": ["ok1", "ok3", "ok2"], "opts": ["-header_file=<Copyright nobody>"]}},
+                          "impl": {"exit": rc, "stderr": err[-400:]}, "oracle": why, "seed": seed()}, True))
+    finally:
+        shutil.rmtree(root, ignore_errors=True)
     # option handling: unreadable header file, nonexistent pattern, default-command form
     for cmd in ("gen", "diff"):
         d, why = check_case(cmd, ["ok1"], ("-header_file=HDR",), {"ok1": "stale"}, bad_header=True)
